@@ -680,7 +680,27 @@ func checkC17(w *World, run *simrt.Run) {
 			est[i] = maxLat
 		}
 		lastNonMin := time.Duration(-1)
+		// probes: the first call issued more than Tick after the previous probe is sent to the next
+		// target in rotation, whatever the estimates say: any n consecutive probes reach n distinct
+		// targets (the live set is stable)
+		lastProbe := time.Duration(-1)
+		var probes []string
 		for k, rr := range routes {
+			if lastProbe < 0 || rr.ArriveT-lastProbe > tick {
+				lastProbe = rr.ArriveT
+				probes = append(probes, rr.Addr)
+				if n := len(probes); n >= nt {
+					seen := map[string]bool{}
+					for _, a := range probes[n-nt:] {
+						seen[a] = true
+					}
+					if len(seen) != nt {
+						w.Violate("C17.least-time", "probes-not-in-rotation", fmt.Sprintf("the last %d probes (first call after each Tick of %v, latest at %v) went to %v: not %d distinct targets", nt, tick, rr.ArriveT, probes[n-nt:], nt))
+						return
+					}
+					w.Probe("least-time-probe-window")
+				}
+			}
 			ti := w.targetIdx(rr.Addr)
 			min := int64(math.MaxInt64)
 			for _, e := range est {
